@@ -642,7 +642,8 @@ def sub_chunk(args):
                 elif st[3] is not None or (st[4] is not None and st[4] < 1000):
                     continue          # a depth / max_seq_len limit bites on purpose: these layouts are compared with the model only
                 else:
-                    bad = oracle_eval_equal(V.strip_comments(value), text)
+                    plain_v = V.strip_comments(value)
+                    bad = oracle_eval_equal(sorted_copy(plain_v) if st[5] else plain_v, text)
                     if not bad:
                         try:
                             a = ast_of(text)
@@ -723,6 +724,15 @@ def subclasses_section(tier, seed):
     rng = random.Random(seed * 13 + 1)
     vals = subclass_values(rng, 1500 if tier == 'quick' else 12000)
     cases = [(v, settings_for(rng, v, tier)) for v in vals]
+    # subclass instances as dict keys under sort_dict_keys=True (the keys pass through the sort key and back): one key, two keys of
+    # the same subclass family (comparable by value), a tuple holding an instance, a comment on the key
+    import subclasses as S
+    sorted_sets = [(4, w, w, None, 1000, 1) for w in (1, 20, 79)] + [(2, 40, 30, None, 1000, 1)]
+    for base, a, b in ((tuple, (1, 5), (1, 2)), (str, 'zed', 'abc'), (int, 7, 3), (float, 2.5, 0.5), (bytes, b'zz', b'aa')):
+        for _ in range(4):
+            x, y = S.make(rng, base, a), S.make(rng, base, b)
+            for v in ({x: 'old'}, {x: 1, y: 2}, [{y: [x]}], {(x, 1): 0, (y, 2): 1}, {pp.comment(x, 'c'): 1, y: 2}, {'k': {x: {y: 0}}}):
+                cases.append((v, sorted_sets))
     tot, nt, mism, fails = run_sub_cases(cases)
     stats = {'evaluations': tot, 'distinct_nontrivial': nt, 'values': len(vals), 'mismatches': len(mism),
              'samples': [{'value': val_to_sx(vals[0])[:300]}, {'value': val_to_sx(vals[7])[:300]}],
